@@ -186,6 +186,10 @@ structure SDef where
   initial : List Nat := []
   /-- `NestedState.events`: events declared inside this state's definition -/
   events : List (Nat × List NTrans) := []
+  /-- `State.final` -/
+  final : Bool := false
+  /-- `NestedState.on_final` -/
+  onFinal : List Nat := []
   deriving DecidableEq, Repr, Inhabited
 
 /-- `states` of the machine / of a NestedState: ordered, `cons d kids rest` -/
